@@ -479,6 +479,36 @@ fn gen_wb(rng: &mut Rng, fmt: &str) -> MBook {
     b
 }
 
+/// rewrites one worksheet part (preferably one that owns a table) so that it holds a malformed
+/// numeric cell; None if no suitable part is found
+fn break_one_sheet(xlsx: &[u8]) -> Option<Vec<u8>> {
+    let mut parts = crate::enc::zipw::read_all(xlsx)?;
+    let is_sheet = |n: &str| n.to_ascii_lowercase().contains("worksheets/sheet") && n.ends_with(".xml");
+    let with_table: Vec<String> = parts
+        .iter()
+        .filter(|p| p.name.contains("worksheets/_rels/") && String::from_utf8_lossy(&p.data).contains("table"))
+        .filter_map(|p| p.name.rsplit('/').next().map(|f| f.trim_end_matches(".rels").to_string()))
+        .collect();
+    let at = parts
+        .iter()
+        .position(|p| is_sheet(&p.name) && with_table.iter().any(|f| p.name.ends_with(f.as_str())))
+        .or_else(|| parts.iter().rposition(|p| is_sheet(&p.name)))?;
+    let d = parts[at].data.clone();
+    let key = b"sheetData>";
+    let pos = d.windows(key.len()).position(|w| w == key)?;
+    if pos > 0 && d[pos - 1] == b'/' {
+        return None; // <sheetData/>: nothing to break
+    }
+    let lt = d[..pos].iter().rposition(|b| *b == b'<')?;
+    let prefix = String::from_utf8_lossy(&d[lt + 1..pos]).into_owned(); // "" or "x:"
+    let bad = format!("<{0}row r=\"1\"><{0}c r=\"A1\" t=\"n\"><{0}v>12abc</{0}v></{0}c></{0}row>", prefix);
+    let mut nd = d[..pos + key.len()].to_vec();
+    nd.extend_from_slice(bad.as_bytes());
+    nd.extend_from_slice(&d[pos + key.len()..]);
+    parts[at].data = nd;
+    Some(crate::enc::zipw::build(&parts))
+}
+
 fn vba_bin(rng: &mut Rng) -> Vec<u8> {
     let p = Project { codepage: 1252, modules: vec![Module { name: "Module1".into(), source: b"Sub a()\r\nEnd Sub\r\n".to_vec(), text_offset: 3, document: false, read_only: false, private: false }], references: vec![], compat_version: false };
     let mut st = Stats::default();
@@ -503,7 +533,7 @@ impl Prop for C07 {
         tier.pick(16, 160)
     }
     fn mandatory(&self, _t: Tier) -> Vec<String> {
-        let mut v: Vec<String> = ["fmt:xlsx", "fmt:xlsb", "fmt:xls", "fmt:ods", "header_row_changed", "auto_detected", "non_worksheet_present", "with_vba", "scripted:table_across_header_change"].iter().map(|s| s.to_string()).collect();
+        let mut v: Vec<String> = ["fmt:xlsx", "fmt:xlsb", "fmt:xls", "fmt:ods", "header_row_changed", "auto_detected", "non_worksheet_present", "with_vba", "scripted:table_across_header_change", "xlsx:unreadable_sheet"].iter().map(|s| s.to_string()).collect();
         for o in ["Range", "RangeRef", "RangeAt", "Worksheets", "Formula", "MergeCells", "MergeCellsAt", "MergedBySheet", "Table", "TableRef", "Vba", "SheetNames", "Metadata", "DefinedNames"] {
             v.push(format!("op:{}", o));
         }
@@ -533,7 +563,16 @@ impl Prop for C07 {
                     if with_vba {
                         ch.vba = Some(vba_bin(&mut rng));
                     }
-                    let bytes = crate::enc::xlsx::encode(&book, &ch, &mut rng).bytes;
+                    let mut bytes = crate::enc::xlsx::encode(&book, &ch, &mut rng).bytes;
+                    if rng.chance(1, 4) {
+                        // a workbook one sheet of which cannot be read (a malformed number): every
+                        // read of that sheet, and of the tables on it, fails - consistently - and
+                        // must not disturb the reads that follow
+                        if let Some(b) = break_one_sheet(&bytes) {
+                            bytes = b;
+                            out.feat("xlsx:unreadable_sheet");
+                        }
+                    }
                     run_history::<Xlsx<Cur>>(fmt, &|| Xlsx::new(Cursor::new(bytes.clone())).ok(), &book, true, &mut rng, out, &ctxj, &bytes);
                 }
                 "xlsb" => {
